@@ -15,6 +15,9 @@ pub trait Kind: 'static {
     const TRACKED: bool;
     /// payload never allocates and runs no harness code that allocates (C06)
     const NOALLOC: bool;
+    /// equal keys (and values) are distinguishable objects: `kid` / `vid` identify them.
+    /// True for the ledger-tracked kind and for the tagged plain-data kind.
+    const IDENT: bool = Self::TRACKED;
     /// largest universe the key type supports
     const MAX_UNIV: u8 = 255;
     fn key(raw: u8) -> Self::K;
@@ -564,5 +567,114 @@ impl Kind for ZstBoth {
     }
     fn vdisp(_: u32) -> String {
         "nil".into()
+    }
+}
+
+/// Plain `Copy` data without drop glue whose keys are equal-but-distinguishable: equality looks
+/// at `raw` only, `tag` is a per-construction serial number. Identity oracles (C12, C18, C16)
+/// apply, ownership oracles do not (nothing to drop). A fast path keyed on `needs_drop` or on
+/// `Copy`-likeness that swaps, keeps or overwrites the wrong key object is visible here.
+thread_local! {
+    static TAGS: Cell<u32> = const { Cell::new(0) };
+}
+fn next_tag() -> u32 {
+    TAGS.with(|c| {
+        let v = c.get().wrapping_add(1) & 0x7FFF_FFFF;
+        c.set(v);
+        v
+    })
+}
+#[derive(Clone, Copy)]
+pub struct GK {
+    pub raw: u8,
+    pub tag: u32,
+}
+impl PartialEq for GK {
+    fn eq(&self, o: &GK) -> bool {
+        crate::tl::tick(crate::tl::Cb::KeyEq);
+        self.raw == o.raw
+    }
+}
+impl Eq for GK {}
+impl Borrow<u8> for GK {
+    fn borrow(&self) -> &u8 {
+        &self.raw
+    }
+}
+impl fmt::Debug for GK {
+    fn fmt(&self, f: &mut fmt::Formatter<'_>) -> fmt::Result {
+        write!(f, "g{}", self.raw)
+    }
+}
+impl fmt::Display for GK {
+    fn fmt(&self, f: &mut fmt::Formatter<'_>) -> fmt::Result {
+        write!(f, "g{}", self.raw)
+    }
+}
+#[derive(Clone, Copy, Default)]
+pub struct GV {
+    pub val: u32,
+    pub tag: u32,
+}
+impl PartialEq for GV {
+    fn eq(&self, o: &GV) -> bool {
+        self.val == o.val
+    }
+}
+impl fmt::Debug for GV {
+    fn fmt(&self, f: &mut fmt::Formatter<'_>) -> fmt::Result {
+        write!(f, "h{}", self.val)
+    }
+}
+impl fmt::Display for GV {
+    fn fmt(&self, f: &mut fmt::Formatter<'_>) -> fmt::Result {
+        write!(f, "h{}", self.val)
+    }
+}
+pub struct Tagged;
+impl Kind for Tagged {
+    type K = GK;
+    type Q = u8;
+    type QO = u8;
+    type V = GV;
+    const NAME: &'static str = "tagged";
+    const TRACKED: bool = false;
+    const NOALLOC: bool = true;
+    const IDENT: bool = true;
+    fn key(raw: u8) -> GK {
+        GK { raw, tag: next_tag() }
+    }
+    fn qo(raw: u8) -> u8 {
+        raw
+    }
+    fn val(x: u32) -> GV {
+        GV { val: x, tag: next_tag() }
+    }
+    fn kraw(k: &GK) -> u8 {
+        k.raw
+    }
+    fn kid(k: &GK) -> u32 {
+        k.tag
+    }
+    fn vval(v: &GV) -> u32 {
+        v.val
+    }
+    fn vid(v: &GV) -> u32 {
+        v.tag
+    }
+    fn vset(v: &mut GV, x: u32) {
+        v.val = x
+    }
+    fn kdbg(raw: u8) -> String {
+        format!("g{raw}")
+    }
+    fn vdbg(x: u32) -> String {
+        format!("h{x}")
+    }
+    fn kdisp(raw: u8) -> String {
+        format!("g{raw}")
+    }
+    fn vdisp(x: u32) -> String {
+        format!("h{x}")
     }
 }
